@@ -566,6 +566,18 @@ func genC19(g *G) {
 			g.Emit("btcsession", g.Pick([]string{"1-4-100", "2-4-7", "retry-1-4"}), itoa(n), itoa(np))
 		}
 	}
+	// the session ids the EVM signing processes run under (several batches per delivery)
+	for _, sp := range []string{"n:p", "n:p;n:p", "n:p;n:p;n:p", "100:p;n:p", "n:e;n:p;41:p;n:p", "40:p;n:p;n:p;0:p;0:p", "n:e"} {
+		g.Emit("evmsigsession", "100", "60", "1-2-100-104", sp)
+	}
+	for i := 0; i < g.Count(25, 600); i++ {
+		n := 1 + g.Intn(5)
+		xs := []string{}
+		for j := 0; j < n; j++ {
+			xs = append(xs, []string{"n", "0", "40", "41", "100"}[g.Intn(5)]+":"+g.Pick([]string{"p", "p", "p", "e"}))
+		}
+		g.Emit("evmsigsession", "100", "60", []string{"1-2-100-104", "3-1-5-9", "retry-7"}[g.Intn(3)], joinOr(xs, ";"))
+	}
 	// the same delivery twice on one Executor object
 	for _, sp := range []string{"n:p", "n:p;n:p;n:p", "100:p;n:p", "n:e;n:p;41:p;n:p", "40:p;n:p;n:p;0:p;0:p"} {
 		g.Emit("evmsession2", "100", "60", "1-2-102-102", sp)
